@@ -183,9 +183,23 @@ func scanOne(dir, input string) obj {
 	}
 	res["models"] = models
 	if input != "" {
-		_, hasPath := sw.Paths.Paths["/existing"]
-		_, hasDef := sw.Definitions["existingDef"]
-		res["mergedKept"] = hasPath && hasDef
+		// everything the input declares is still there
+		kept := true
+		if in, err := loads.Spec(input); err == nil && in.Spec() != nil {
+			if in.Spec().Paths != nil {
+				for p := range in.Spec().Paths.Paths {
+					if _, ok := sw.Paths.Paths[p]; !ok {
+						kept = false
+					}
+				}
+			}
+			for d := range in.Spec().Definitions {
+				if _, ok := sw.Definitions[d]; !ok {
+					kept = false
+				}
+			}
+		}
+		res["mergedKept"] = kept
 	}
 	return res
 }
@@ -209,6 +223,15 @@ func cmdScanPrograms(args []string) error {
 			input := filepath.Join(dir, "input.json")
 			if _, err := os.Stat(input); err != nil {
 				input = ""
+			}
+			if _, err := os.Stat(filepath.Join(dir, "selfmerge")); err == nil {
+				// first scan without input; its output is the input of the scan that is judged
+				if first, err := codescan.Run(&codescan.Options{Packages: []string{"."}, WorkDir: dir, ScanModels: true}); err == nil && first != nil {
+					if b, err := json.Marshal(first); err == nil {
+						input = filepath.Join(dir, "self-input.json")
+						_ = os.WriteFile(input, b, 0o644)
+					}
+				}
 			}
 			results[i] = scanOne(dir, input)
 			results[i]["i"] = i
